@@ -69,11 +69,12 @@ package drpcsignal
 
 //@ func (*Signal).IsSet
 //@   props C19
-//@   ensures [seen] result ==> sigES(s.status)
+//@   ensures [seen] result == sigES(s.status)
 
 //@ func (*Signal).Err
 //@   props C19
 //@   ensures [seen] result != nil ==> sigES(s.status) && result == s.err
+//@   ensures [set]  sigES(s.status) ==> result == s.err
 
 //@ func (*Signal).Wait
 //@   props C19
